@@ -136,7 +136,7 @@ def _case(draw, n_hi, mazes_hi, modes, max_procs):
 def subs(tier: str):
     q = tier == "quick"
     return [
-        Sub("serial", check, "hypothesis", strategy=lambda: _case(8 if q else 15, 12, ["serial", "serial", "from_config"], 1), examples=150 if q else 1500),
+        Sub("serial", check, "hypothesis", strategy=lambda: _case(8 if q else 15, 12, ["serial", "serial", "from_config"], 1), examples=150 if q else 3000),
         # parallel generation must be started from a top-level process (the library's worker initializer rejects nested process
         # identities) and multiprocessing.Pool teardown can dead-lock after a worker error: the sub-check therefore runs in fresh
         # interpreters, a chunk of cases at a time, each chunk under a wall limit (a hung chunk is killed and counted, not an alarm)
